@@ -429,7 +429,8 @@ Proof.
 Qed.
 
 (* the sets read off the encoders are the ones RFC 3986 / the source name:
-   unreserved = ALPHA DIGIT - . _ ~ ; userinfo adds sub-delims and ':' ; path adds '/' '@' and '%' *)
+   unreserved = ALPHA DIGIT - . _ ~ ; userinfo adds sub-delims and ':' ; path adds '/' '@' '%' and,
+   because path_ holds path+query, the query delimiter '?' (PathChars + '?' in Uri::absolutePath()) *)
 Definition in_range (lo hi c : N) : bool := (lo <=? c) && (c <=? hi).
 Definition rfc3986_unreserved (c : N) : bool :=
   in_range 65 90 c || in_range 97 122 c || in_range 48 57 c || existsb (N.eqb c) [45; 46; 95; 126].
@@ -438,12 +439,12 @@ Definition sets_check (c : N) : bool :=
   Bool.eqb (mem_tbl bm_uri_unreserved_set c) (rfc3986_unreserved c) &&
   Bool.eqb (mem_tbl bm_uri_userinfo_set c) (rfc3986_unreserved c || rfc3986_sub_delims c || (c =? 58)) &&
   Bool.eqb (mem_tbl bm_uri_path_set c)
-           (rfc3986_unreserved c || rfc3986_sub_delims c || (c =? 58) || (c =? 64) || (c =? 47) || (c =? 37)).
+           (rfc3986_unreserved c || rfc3986_sub_delims c || (c =? 58) || (c =? 64) || (c =? 47) || (c =? 37) || (c =? 63)).
 Theorem uri_ignore_sets c : c < 256 ->
   mem_tbl bm_uri_unreserved_set c = rfc3986_unreserved c /\
   mem_tbl bm_uri_userinfo_set c = (rfc3986_unreserved c || rfc3986_sub_delims c || (c =? 58)) /\
   mem_tbl bm_uri_path_set c =
-    (rfc3986_unreserved c || rfc3986_sub_delims c || (c =? 58) || (c =? 64) || (c =? 47) || (c =? 37)).
+    (rfc3986_unreserved c || rfc3986_sub_delims c || (c =? 58) || (c =? 64) || (c =? 47) || (c =? 37) || (c =? 63)).
 Proof.
   intros Hc. pose proof (forallb_bytes sets_check ltac:(vm_compute; reflexivity) c Hc) as H.
   unfold sets_check in H. apply andb_prop in H. destruct H as [H H3]. apply andb_prop in H. destruct H as [H1 H2].
